@@ -277,9 +277,13 @@ Record cfg := mkCfg {
   sndbuf : nat;              (* channel.sendbuf_len *)
   use_poll2 : bool;          (* adj.asyncore_use_poll *)
   wc_close : bool;           (* the do_close with which service() reaches _flush_some through send_continue():
-                                True in the code as it is (finding F18); read off the source by the harness *)
-  init_guarded : bool        (* handle_accept constructs the channel INSIDE its try/except OSError:
-                                False in the code as it is (finding F17); read off the source by the harness *)
+                                was True (finding F18), False since /repo da3bf3a; read off the source on every
+                                run (Gen/GenChanKnobs.v) *)
+  init_guarded : bool        (* handle_accept constructs the channel inside a try/except OSError: it did not
+                                (finding F17); since /repo 8a2ea3a it does, in a second try after the first
+                                one whose handler also just returns (after closing the accepted socket, which
+                                never became a channel): the model keeps ONE frame KAccTry for both trys;
+                                read off the source on every run *)
 }.
 
 Definition th0 (stack : list instr) : thread_st := mkTh stack None false false false.
